@@ -7,7 +7,9 @@ def main():
     from mc.worlds import cellworld  # noqa: F401
     from treadmill import scheduler
     assert scheduler.DIMENSION_COUNT == 3
-    print('selftest ok')
+    from selftest import fakezk_test
+    n = fakezk_test.run()
+    print('selftest ok (%d fake-ZooKeeper assertions)' % n)
     return 0
 
 
